@@ -21,6 +21,8 @@ pub enum FnBody {
     LocalInit(Vec<String>),
     /// several literals in one assignment: `gp = v0 ? "a" : "b";`
     TernaryAssign(Vec<String>),
+    /// use of function-like macro number .0 of the case: `v<d> = NAME(v<x>, v<y>);`
+    MacroUse(usize, usize, usize, usize),
 }
 
 #[derive(Debug, Clone, Serialize, Deserialize, PartialEq)]
@@ -42,6 +44,10 @@ pub struct Case {
     /// plant a defect (diagnostics must be deterministic too)
     pub broken: bool,
     pub opt: u8,
+    /// function-like macros (name, variant): 0 = (pa, pb), 1 = (pb, pa), 2 = (pa, pb, pc); a sibling
+    /// program that defines the same names with other parameter lists is compiled first
+    #[serde(default)]
+    pub macros: Vec<(String, u8)>,
 }
 
 impl Reducible for Case {
@@ -84,6 +90,8 @@ impl Reducible for Case {
     }
 }
 
+const MACRO_NAMES: [&str; 3] = ["SUB", "MIX", "PICK"];
+
 const WORDS: [&str; 10] = ["one", "two", "three", "four", "five", "six", "seven", "eight", "nine", "ten"];
 
 pub fn gen_case(g: &mut G) -> Case {
@@ -91,6 +99,11 @@ pub fn gen_case(g: &mut G) -> Case {
     let nt = g.below(3);
     let tables = (0..nt).map(|_| (0..2 + g.below(4)).map(|_| WORDS[g.below(10)].to_string()).collect()).collect();
     let nf = 3 + g.below(10);
+    let nm = g.weighted(&[2, 2, 1, 1]);
+    let mut macros: Vec<(String, u8)> = vec![];
+    for k in 0..nm {
+        macros.push((MACRO_NAMES[k].to_string(), g.below(3) as u8));
+    }
     let mut funs: Vec<Fun> = vec![];
     for i in 0..nf {
         let nparams = g.below(4);
@@ -121,6 +134,7 @@ pub fn gen_case(g: &mut G) -> Case {
                 }
                 7 => FnBody::PtrAssign(WORDS[g.below(10)].to_string()),
                 8 if g.chance(1, 3) => FnBody::Warn,
+                3 | 4 | 9 if !macros.is_empty() && g.chance(1, 2) => FnBody::MacroUse(g.below(macros.len()), g.below(nvars), g.below(nvars), g.below(nvars)),
                 8 | 9 if g.chance(1, 2) => {
                     let lits: Vec<String> = (0..2 + g.below(2)).map(|_| WORDS[g.below(10)].to_string()).collect();
                     if g.chance(1, 2) {
@@ -147,11 +161,24 @@ pub fn gen_case(g: &mut G) -> Case {
             order.insert(newpos, k);
         }
     }
-    Case { nvars, tables, funs, order, broken: g.chance(1, 10), opt: g.below(2) as u8 }
+    Case { nvars, tables, funs, order, broken: g.chance(1, 10), opt: g.below(2) as u8, macros }
 }
 
 pub fn source(c: &Case) -> String {
+    source_shifted(c, 0)
+}
+
+/// the program with every macro's parameter list taken `shift` variants further (0 = the case itself)
+pub fn source_shifted(c: &Case, shift: u8) -> String {
     let mut s = String::new();
+    let variant = |k: usize| (c.macros[k].1 + shift) % 3;
+    for (k, (name, _)) in c.macros.iter().enumerate() {
+        match variant(k) {
+            0 => s.push_str(&format!("#define {}(pa, pb) ((pa) - (pb))\n", name)),
+            1 => s.push_str(&format!("#define {}(pb, pa) ((pa) - (pb))\n", name)),
+            _ => s.push_str(&format!("#define {}(pa, pb, pc) ((pa) - (pb) + (pc))\n", name)),
+        }
+    }
     for i in 0..c.nvars {
         if i % 7 == 3 {
             s.push_str(&format!("short v{};\n", i));
@@ -196,6 +223,20 @@ pub fn source(c: &Case) -> String {
                 FnBody::Call(k) => s.push_str(&format!("  {}();\n", c.funs[*k].name)),
                 FnBody::PtrAssign(w) => s.push_str(&format!("  gp = \"{}\";\n", w)),
                 FnBody::Warn => s.push_str("  X = 300;\n"),
+                FnBody::MacroUse(k, d, x, y) => {
+                    let scalar = |v: usize| {
+                        let v = v % c.nvars;
+                        if v % 7 == 3 || v % 11 == 5 {
+                            0
+                        } else {
+                            v
+                        }
+                    };
+                    if *k < c.macros.len() {
+                        let extra = if variant(*k) == 2 { ", 1" } else { "" };
+                        s.push_str(&format!("  v{} = {}(v{}, v{}{});\n", scalar(*d), c.macros[*k].0, scalar(*x), scalar(*y), extra));
+                    }
+                }
                 FnBody::LocalInit(l) | FnBody::TernaryAssign(l) => {
                     let e = if l.len() >= 3 {
                         format!("v0 ? \"{}\" : (v1 ? \"{}\" : \"{}\")", l[0], l[1], l[2])
@@ -302,6 +343,13 @@ pub fn check(case: &Case, st: &mut Stats, in_process: usize, processes: usize) -
     }
     let src = source(case);
     let opts = Opts::o(case.opt);
+    if !case.macros.is_empty() {
+        // what an earlier compilation in this process knew about a macro of the same name must not
+        // leak into this one
+        let _ = cc::compile_str(&source_shifted(case, 1), &opts);
+        let _ = cc::compile_str(&source_shifted(case, 2), &opts);
+        st.count("label:sibling-with-other-macro-parameter-lists-compiled-first");
+    }
     let first = dump(&cc::compile_str(&src, &opts));
     if first.starts_with("ERR") {
         st.count("diagnostics_case");
